@@ -4,6 +4,7 @@ package main
 
 import (
 	"fmt"
+	"go/types"
 	"sort"
 	"strings"
 
@@ -39,6 +40,49 @@ func init() {
 		}
 		e.natives["sort.Slice"] = sortSlice
 		e.natives["sort.SliceStable"] = sortSlice
+
+		// fmt.Fprintf / Fprintln into an in-memory writer (tabwriter, bytes.Buffer, strings.Builder,
+		// bufio.Writer): format with the engine's formatter and call the interpreted Write. Any
+		// other writer keeps the default behaviour (output discarded).
+		memWriter := func(t types.Type) bool {
+			switch t.String() {
+			case "*text/tabwriter.Writer", "*bytes.Buffer", "*strings.Builder", "*bufio.Writer":
+				return true
+			}
+			return false
+		}
+		fwrite := func(x *Exec, w Iface, s Value) Value {
+			m := x.eng.methodByName(w.t, "Write")
+			if m == nil {
+				x.unsupported("fmt.Fprint*: %s has no Write method", w.t)
+			}
+			bs := strBytes(s)
+			buf := make([]Value, len(bs))
+			copy(buf, bs)
+			return x.call(nil, m, []Value{w.v, buf})
+		}
+		e.natives["fmt.Fprintf"] = func(x *Exec, fr *frame, a []Value) Value {
+			w, ok := a[0].(Iface)
+			if !ok || w.t == nil || !memWriter(w.t) {
+				return Tuple{uint64(0), Iface{}}
+			}
+			return fwrite(x, w, x.format(a[1], a[2].([]Value)))
+		}
+		e.natives["fmt.Fprintln"] = func(x *Exec, fr *frame, a []Value) Value {
+			w, ok := a[0].(Iface)
+			if !ok || w.t == nil || !memWriter(w.t) {
+				return Tuple{uint64(0), Iface{}}
+			}
+			args := a[1].([]Value)
+			f := ""
+			for i := range args {
+				if i > 0 {
+					f += " "
+				}
+				f += "%v"
+			}
+			return fwrite(x, w, x.format(f+"\n", args))
+		}
 
 		// log.FromCtx: the logger is never the subject of a property; return the repo's own
 		// log.DiscardLogger{} (non-nil, all methods are no-ops and are interpreted).
